@@ -15,7 +15,7 @@ class C15(Prop):
     PER_CASE_TIMEOUT = 120.0
     MODEL_TIMEOUT = 600.0      # the extracted model walks 976+ streams base by base on the chunked-path cases
     THEOREMS = ["C15_merge_into", "C15_merge_into_no_overlap", "C15_merge_many", "C15_merge_many_code_window", "C15_fill", "C15_fill_start_to_end",
-                "C15_fill_signal", "C15_tool_pipeline", "C15_tool_chunked", "C15_tool_run", "C15_outputs_agree", "C15_output_names"]
+                "C15_fill_signal", "C15_tool_pipeline", "C15_tool_chunked", "C15_tool_run", "C15_outputs_agree", "C15_output_names", "C15_constants_from_source"]
     RULE = ("library cases: merge_into over all 13 interval relations x zero/non-zero values (thorough: every pair with ends <= 4 "
             "x 16 value pairs, both orders, non-overlapping included); merge_sections_many on 1..5 streams whose breakpoints are drawn "
             "around bases 0, W-1, W, W+1, 2W-1, 2W, 2W+1, 3W (W = 50000) and at random, with values crossing one or several windows, "
@@ -28,7 +28,7 @@ class C15(Prop):
                       "iterators (f32 bit patterns) and the rows written by the bigwigmerge binary (bedGraph text; bigWig read back)")
     TRUSTED = ["bedgraphtobigwig and bigwigtobedgraph binaries used to make inputs / read bigWig outputs back (C01/C16 territory)",
                "f32 <-> eighths conversion in Model/Entry_C15.v and the harness (exact range only)",
-               "MAX_BW_FDS = 976 and the output-name suffixes are hand-copied into the model (tied by the tool cases)"]
+               "MAX_BW_FDS and the output-name suffixes come from Generated/Consts.v (translator) and are tied to the model by C15_constants_from_source"]
     ASSUMPTIONS = ["values are multiples of 1/8 small enough that every f32/f64 intermediate is exact (DESIGN 3.2)",
                    "positions stay far below 2^32 (u32 overflow of next_start is not modelled)",
                    "debug-profile panics (overflow checks on), as built by the harness"]
